@@ -100,6 +100,14 @@ func printMaps(r *rand.Rand, sb *strings.Builder, sentinel string) string {
 				pieces = append(pieces, pc)
 			}
 			form += fmt.Sprintf("+split%d", k)
+		} else if m.exec && m.off == 0 && m.start != 0x400000 && strings.HasPrefix(form, "proc") && r.Intn(5) == 0 {
+			// text remapped anonymously in front of the rest of the file's mapping: the first piece
+			// has no name and no offset, the second names the file at whatever offset it has there
+			// (documented: adjacent pieces are one mapping unless both carry offsets that disagree)
+			cut := uint64(1+r.Intn(8)) * 0x1000
+			pieces = []mp{{start: m.start, end: m.start + cut, off: 0, file: "", exec: true},
+				{start: m.start + cut, end: m.end, off: []uint64{cut, 0x201000, 0x5000}[r.Intn(3)], file: m.file, exec: true}}
+			form += "+anonfirst"
 		} else if m.start == 0x400000 && huge {
 			pieces = []mp{{start: m.start, end: m.start + hugeLen, off: 0, file: "/anon_hugepage" + []string{"", " (deleted)"}[r.Intn(2)], exec: true},
 				{start: m.start + hugeLen, end: m.end, off: hugeLen, file: m.file, exec: true}}
@@ -227,6 +235,18 @@ func Heap(r *rand.Rand) *Doc {
 			rc.ab = rc.ib + (rc.ac-rc.ic)*int64(1+r.Intn(3000))
 			if rc.ab == 0 {
 				rc.ab = rc.ac
+			}
+			// totals that coincide in one of the two figures only: as many objects allocated as in
+			// use but more bytes, or more objects but the same bytes
+			switch r.Intn(6) {
+			case 0:
+				if rc.ac == rc.ic {
+					rc.ab = rc.ib + int64(1+r.Intn(100))
+				}
+			case 1:
+				if rc.ib > 0 {
+					rc.ab = rc.ib
+				}
 			}
 		}
 		for j, d := 0, r.Intn(5); j < d; j++ {
